@@ -124,6 +124,7 @@ type Dir struct {
 	S    string   `json:"s"`
 	Tgts []Target `json:"tgts"`
 	Acts []Action `json:"acts"`
+	Def  string   `json:"def"` // disruptive action of a SecDefaultAction written at the top for every phase ("" = none)
 }
 
 type Scen struct {
